@@ -1,6 +1,7 @@
 import NauyacaVerif.Srv.ConnMore
 import NauyacaVerif.Url.Reject
 import NauyacaVerif.Url.RejectFrag
+import NauyacaVerif.Url.RejectUser
 import NauyacaVerif.Gen.Params
 
 /-! # C08  Only protocol-valid requests reach handlers; valid requests are not refused
@@ -26,18 +27,20 @@ theorem reach_sound (cfg : Cfg) (evs : List Ev)
 /-- the independent must-reject specification on the raw (clean) line: the clauses proved so far -/
 def MustRejectProved (l : Url.Str) : Prop :=
   ':' ∉ l ∨ (Url.beforeColon l).map Url.lowerAscii ≠ Url.gemLit ∨ (Url.afterColon l).take 2 ≠ ['/', '/'] ∨ Url.authority l = [] ∨
-  (∃ pre suf, l = pre ++ '#' :: suf ∧ suf ≠ [])
+  (∃ pre suf, l = pre ++ '#' :: suf ∧ suf ≠ []) ∨
+  (∃ ui rest, Url.authority l = ui ++ '@' :: rest ∧ '@' ∉ rest ∧ ui ≠ [] ∧ ui ≠ [':'])
 
 /-- such a line is refused by `parse_url` for every environment (the opaque checks can only add rejections) -/
 theorem mustReject_refused (env : Url.Env) (l : Url.Str) (hc : Url.CleanLine l) (h : MustRejectProved l) :
     geminiOk env l = false := by
   have : ∃ e, Url.parseUrl env l = .error e := by
-    rcases h with h | h | h | h | h
+    rcases h with h | h | h | h | h | ⟨ui, rest, ha, hr, h1, h2⟩
     · exact Url.reject_scheme env l hc (Or.inl h)
     · exact Url.reject_scheme env l hc (Or.inr h)
     · exact Url.reject_no_authority env l hc (Or.inl h)
     · exact Url.reject_no_authority env l hc (Or.inr h)
     · exact Url.reject_fragment env l hc h
+    · exact Url.reject_userinfo env l hc ui rest ha hr h1 h2
   obtain ⟨e, he⟩ := this
   simp [geminiOk, he]
 
@@ -53,13 +56,12 @@ theorem reach_sound_spec (cfg : Cfg) (l : Bytes) (line : Url.Str) (ha : Accepted
 
 /-- the fragment clause on its own -/
 theorem reject_fragment (env : Url.Env) (l : Url.Str) (hc : Url.CleanLine l) (h : ∃ pre suf, l = pre ++ '#' :: suf ∧ suf ≠ []) :
-    geminiOk env l = false := mustReject_refused env l hc (Or.inr (Or.inr (Or.inr (Or.inr h))))
+    geminiOk env l = false := mustReject_refused env l hc (Or.inr (Or.inr (Or.inr (Or.inr (Or.inl h)))))
 
-/-- the one clause of the specification not yet proved on the raw line (non-empty user-info): kept as a
-    statement; the correspondence and the independent oracle cover it -/
-def reject_userinfo_statement : Prop :=
-  ∀ (env : Url.Env) (l : Url.Str) (ui rest : Url.Str), Url.CleanLine l → Url.authority l = ui ++ '@' :: rest → '@' ∉ rest →
-    ui ≠ [] → ui ≠ [':'] → geminiOk env l = false
+/-- the user-info clause on its own: credentials other than the empty `@` / `:@` are refused -/
+theorem reject_userinfo (env : Url.Env) (l ui rest : Url.Str) (hc : Url.CleanLine l) (ha : Url.authority l = ui ++ '@' :: rest)
+    (hr : '@' ∉ rest) (h1 : ui ≠ []) (h2 : ui ≠ [':']) : geminiOk env l = false :=
+  mustReject_refused env l hc (Or.inr (Or.inr (Or.inr (Or.inr (Or.inr ⟨ui, rest, ha, hr, h1, h2⟩)))))
 
 /-- a refused line is answered 59 and nothing is invoked -/
 theorem reject_status (cfg : Cfg) (s : St) (l r : Bytes) (line : Url.Str) (hd : decodeUtf8 l = some line)
